@@ -80,6 +80,8 @@ _SMALL = [p for p in range(2, 550) if all(p % q for q in range(2, int(p ** 0.5) 
 
 def mr_big(n):
     """100-base Miller-Rabin (last resort for untagged inputs >= 3.3e24)."""
+    if n < 2:
+        return False
     for p in _SMALL:
         if n % p == 0:
             return n == p
@@ -339,7 +341,7 @@ def cases(tier, rng, extended=False):
     tries = 0
     while found < want and tries < 400000:
         tries += 1
-        k = rng.getrandbits(rng.randrange(20, 80))
+        k = rng.getrandbits(rng.randrange(20, 80)) | 1
         a, b, c = 6 * k + 1, 12 * k + 1, 18 * k + 1
         if all(x % s for x in (a, b, c) for s in _SMALL[:30]) and mr_big(a) and mr_big(b) and mr_big(c):
             found += 1
